@@ -55,9 +55,16 @@ def order_hook(I, m):
     if idx is None:
         n = 1
         for j in range(2, len(user) + 1): n *= j
+        if n > 24: n = 8           # more than 4 user keys: 8 representative orders instead of all n!
         idx = I.choose(n, 'order')
         I.order_choice[ks] = idx
-    perm = list(itertools.permutations(sorted(user, key=lambda i: keys[i])))[idx]
+    base = sorted(user, key=lambda i: keys[i])
+    if len(user) <= 4:
+        perm = list(itertools.permutations(base))[idx]
+    else:
+        k = len(base)
+        reps = [base, base[::-1]] + [base[r:] + base[:r] for r in (1, 2, k - 1)] + [base[::-1][r:] + base[::-1][:r] for r in (1, 2, k - 1)]
+        perm = reps[idx]
     out = [e for i, e in enumerate(entries) if i not in user] + [entries[i] for i in perm]
     return out
 
